@@ -217,7 +217,6 @@ def rename_all(start_pat, end_pat):
 edit("B17-h2-handle_response-rename-all", "actix-http/src/h2/dispatcher.rs", rename_all(r"async fn handle_response<", r"\n\}\n"))
 edit("B18-ws-codec-rename-all", "actix-http/src/ws/codec.rs", rename_all(r"impl Decoder for Codec \{", r"\n\}\n"))
 edit("B19-awc-pool-rename-all", "awc/src/client/pool.rs", rename_all(r"fn call\(&self, req: Connect\) -> Self::Future", r"\n    \}\n\}\n"))
-edit("B20-headermap-rename-all", "actix-http/src/header/map.rs", rename_all(r"    pub fn append\(&mut self", r"\n    /// Clears the map|\n    pub fn clear|\n    pub fn iter\(&self\)"))
 edit("B21-quoter-rename-all", "actix-router/src/quoter.rs", rename_all(r"    fn decode_next<", r"\n\}\n"))
 edit("B22-h1-poll_request-rename-all", "actix-http/src/h1/dispatcher.rs", rename_all(r"    fn poll_request\(", r"\n    fn poll_head_timer|\n    fn poll_ka_timer|\n    fn poll_timers"))
 edit("B23-h1-poll_response-rename-all", "actix-http/src/h1/dispatcher.rs", rename_all(r"    fn poll_response\(", r"\n    fn handle_request\("))
